@@ -49,52 +49,83 @@ pub fn decode_nat<R>(r: &mut R) -> Result<u128>
 where
     R: io::Read + ?Sized,
 {
-    let mut result = 0;
-    let mut shift = 0;
+    let mut result: u128 = 0;
+    let mut shift: u32 = 0;
+    let mut overflow = false;
     loop {
         let mut buf = [0];
         r.read_exact(&mut buf)?;
-        if shift == 127 && buf[0] != 0x00 && buf[0] != 0x01 {
-            while buf[0] & CONTINUATION_BIT != 0 {
-                r.read_exact(&mut buf)?;
-            }
-            return Err(Error::msg("nat overflow"));
-        }
         let low_bits = (buf[0] & !CONTINUATION_BIT) as u128;
-        result |= low_bits << shift;
-        if buf[0] & CONTINUATION_BIT == 0 {
-            return Ok(result);
+        if shift < 128 {
+            // Bits of this group that lie above bit 127 must be zero.
+            if shift + 7 > 128 && (low_bits >> (128 - shift)) != 0 {
+                overflow = true;
+            }
+            result |= low_bits << shift;
+        } else if low_bits != 0 {
+            overflow = true;
         }
-        shift += 7;
+        if buf[0] & CONTINUATION_BIT == 0 {
+            // The whole number has been consumed, also when it does not fit.
+            return if overflow {
+                Err(Error::msg("nat overflow"))
+            } else {
+                Ok(result)
+            };
+        }
+        shift = shift.saturating_add(7);
     }
 }
 pub fn decode_int<R>(r: &mut R) -> Result<i128>
 where
     R: io::Read + ?Sized,
 {
-    let mut result = 0;
-    let mut shift = 0;
-    let size = 128;
+    // `result` holds the low 128 bits of the unsigned group value; `high_zero` /
+    // `high_one` record whether all bits above bit 127 are 0 / are 1.
+    let mut result: u128 = 0;
+    let mut shift: u32 = 0;
+    let mut high_zero = true;
+    let mut high_one = true;
     let mut byte;
     loop {
         let mut buf = [0];
         r.read_exact(&mut buf)?;
         byte = buf[0];
-        if shift == 127 && byte != 0x00 && byte != 0x7f {
-            while buf[0] & CONTINUATION_BIT != 0 {
-                r.read_exact(&mut buf)?;
+        let low_bits = (byte & !CONTINUATION_BIT) as u128;
+        if shift < 128 {
+            result |= low_bits << shift;
+            if shift + 7 > 128 {
+                let extra = low_bits >> (128 - shift);
+                let extra_len = shift + 7 - 128;
+                high_zero &= extra == 0;
+                high_one &= extra == (1u128 << extra_len) - 1;
             }
-            return Err(Error::msg("int overflow"));
+        } else {
+            high_zero &= low_bits == 0;
+            high_one &= low_bits == 0x7f;
         }
-        let low_bits = (byte & !CONTINUATION_BIT) as i128;
-        result |= low_bits << shift;
-        shift += 7;
+        shift = shift.saturating_add(7);
         if byte & CONTINUATION_BIT == 0 {
             break;
         }
     }
-    if shift < size && (byte & SIGN_BIT) == SIGN_BIT {
-        result |= !0 << shift;
+    let negative = (byte & SIGN_BIT) == SIGN_BIT;
+    if shift < 128 {
+        if negative {
+            result |= !0u128 << shift;
+        }
+        return Ok(result as i128);
     }
-    Ok(result)
+    // 128 or more bits were supplied: the value fits iff every bit from bit 127
+    // upwards equals the sign.
+    let top = (result >> 127) == 1;
+    let fits = if negative {
+        top && high_one
+    } else {
+        !top && high_zero
+    };
+    if !fits {
+        return Err(Error::msg("int overflow"));
+    }
+    Ok(result as i128)
 }
